@@ -91,11 +91,11 @@ fn il_strategy(_t: Tier) -> BoxedStrategy<IlCase> {
     let dim = || prop_oneof![4 => Just(1usize), 10 => 1usize..=12, 4 => 13usize..=64, 1 => 65usize..=1100];
     let small = (dim(), dim(), any::<bool>(), any::<u32>(), 0..LAYOUTS, prop_oneof![3 => Just(0usize), 2 => 1usize..=12]).prop_map(|(columns, rows, backward, salt, layout, warm_rows)| IlCase { columns, rows, backward, salt, layout, warm_rows });
     // blocks of more than 2^16 elements: few columns and very many rows, or the other way round
-    let big = (prop_oneof![Just(2usize), Just(3), Just(5)], 22_000usize..=35_000, any::<bool>(), any::<bool>(), any::<u32>(), 0..LAYOUTS).prop_map(|(a, b, swap, backward, salt, layout)| {
+    let big = (prop_oneof![Just(1usize), Just(2), Just(3), Just(5)], prop_oneof![3 => 22_000usize..=35_000, 1 => prop_oneof![Just(65_535usize), Just(65_536), Just(65_537)], 1 => 65_538usize..=70_000], any::<bool>(), any::<bool>(), any::<u32>(), 0..LAYOUTS).prop_map(|(a, b, swap, backward, salt, layout)| {
         let (columns, rows) = if swap { (b, a) } else { (a, b) };
         IlCase { columns, rows, backward, salt, layout, warm_rows: 0 }
     });
-    prop_oneof![250 => small, 1 => big].boxed()
+    prop_oneof![250 => small, 2 => big].boxed()
 }
 
 fn check_il(c: &IlCase, p: &mut Probe) -> Check {
